@@ -1017,6 +1017,71 @@ def translate(repo):
           "Definition src_conn_loop : list loop_stmt := [%s]." % "; ".join(loop), ""]
 
 
+    # ---- src/accept.rs: accept_loop, statement by statement
+    acc = []
+    try:
+        asrc = read(repo, "src/accept.rs")
+        t = re.sub(r"\s+", "", fn_body(asrc, "pub async fn accept_loop"))
+        m = re.fullmatch(r'add_thread_local_log_tag\("thread_name","accept_loop"\);loop\{(.*)\}', t)
+        if not m:
+            raise ValueError("not `add_thread_local_log_tag(..); loop { .. }`")
+        t = m.group(1)
+        WAIT = ("letopt_token=FutureExt::or(async{Some(token_set.async_wait_token().await)},async{(&mutpermit).await;None}).await;")
+        WAIT_PLAIN = "lettoken=token_set.async_wait_token().await;"
+        ACC = "matchFutureExt::or(async{Some(AcceptResult::new(listener.accept().await))},async{(&mutpermit).await;None},).await"
+        def arm_acts(b):
+            acts = []
+            FORMS = [(r"conn_handler\.clone\(\)\(permit\.new_sub\(\),token,stream,addr\);", lambda m: "AAHandToConn"),
+                     (r'error\((?:"[^"]*"|format!\("[^"]*"\)),\(\)\)\.unwrap\(\);', lambda m: "AALogError"),
+                     (r'let_=error\((?:"[^"]*"|format!\("[^"]*"\)),\(\)\);', lambda m: "AALogError"),
+                     (r"safina::timer::sleep_for\(Duration::from_millis\((\d+)\)\)\.await;", lambda m: "AASleep %s" % m.group(1))]
+            while b:
+                for pat, mk in FORMS:
+                    mm = re.match(pat, b)
+                    if mm:
+                        acts.append(mk(mm)); b = b[mm.end():]
+                        break
+                else:
+                    raise ValueError("accept arm statement %r" % b[:60])
+            return "[%s]" % "; ".join(acts)
+        while t:
+            if t.startswith(WAIT):
+                acc.append("ASWaitTokenOrPermit"); t = t[len(WAIT):]
+            elif t.startswith(WAIT_PLAIN):
+                acc.append("ASWaitToken"); t = t[len(WAIT_PLAIN):]
+            elif t.startswith("letSome(token)=opt_tokenelse{return;};"):
+                acc.append("ASReturnIfNoToken"); t = t[len("letSome(token)=opt_tokenelse{return;};"):]
+            elif t.startswith("ifpermit.is_revoked(){return;}"):
+                acc.append("ASReturnIfRevoked"); t = t[len("ifpermit.is_revoked(){return;}"):]
+            elif t.startswith(ACC + "{"):
+                d, j = 1, len(ACC) + 1
+                while d:
+                    d += {"{": 1, "}": -1}.get(t[j], 0)
+                    j += 1
+                inner, t = t[len(ACC) + 1:j - 1], t[j:]
+                arms = []
+                while inner:
+                    mm = re.match(r"(Some\(AcceptResult::Ok\(stream,addr\)\)|Some\(AcceptResult::TooManyOpenFiles\)|Some\(AcceptResult::Err\(e\)\)|None)=>\{", inner)
+                    if not mm:
+                        raise ValueError("accept arm %r" % inner[:60])
+                    pat = {"Some(AcceptResult::Ok(stream,addr))": "APOk", "Some(AcceptResult::TooManyOpenFiles)": "APTooManyFiles",
+                           "Some(AcceptResult::Err(e))": "APErr", "None": "APNone"}[mm.group(1)]
+                    d, j = 1, mm.end()
+                    while d:
+                        d += {"{": 1, "}": -1}.get(inner[j], 0)
+                        j += 1
+                    arms.append("(%s, %s)" % (pat, arm_acts(inner[mm.end():j - 1])))
+                    inner = inner[j:]
+                acc.append("ASAcceptOrPermit [%s]" % ";\n      ".join(arms))
+            else:
+                raise ValueError("accept_loop statement %r" % t[:70])
+    except Exception as e:   # noqa
+        P.append("src/accept.rs accept_loop: cannot translate (%s)" % e)
+        acc = []
+    L += ["(* src/accept.rs accept_loop: the body of its `loop { .. }`, statement by statement *)",
+          "Definition src_accept_loop : list acc_stmt := [\n  %s]." % ";\n  ".join(acc), ""]
+
+
     # ---- src/token_set.rs: TokenSet::new, the three ways to take a token, Token::drop -- statement by statement
     tk = dict(new=[], drop=[], takes=[])
     try:
@@ -1098,7 +1163,7 @@ def translate(repo):
     items = [("chunk", "src/util.rs"), ("event_queue", "src/response.rs event_stream"), ("conn_buf", "src/http_conn.rs HttpConn.buf"), ("conn_guards", "src/http_conn.rs state guards"),
              ("time", "src/time.rs"), ("content_type", "src/content_type.rs"), ("log_prio", "src/log/logger.rs log()"),
              ("event_fmt", "src/event.rs"), ("regex", "src/head.rs"), ("cookie", "src/cookie.rs"), ("request", "src/request.rs"),
-             ("json", "src/log/tag_value.rs"), ("jsonl", "src/log/logger.rs write_jsonl"), ("writer", "src/log/log_file_writer.rs"), ("headers", "src/headers.rs"), ("pfs", "src/log/prefix_file_set.rs"), ("token_set", "src/token_set.rs"), ("write_response", "src/http_conn.rs write_response"), ("conn_loop", "src/http_conn.rs handle_http_conn"), ("resp_head", "src/response.rs write_http_response")]
+             ("json", "src/log/tag_value.rs"), ("jsonl", "src/log/logger.rs write_jsonl"), ("writer", "src/log/log_file_writer.rs"), ("headers", "src/headers.rs"), ("pfs", "src/log/prefix_file_set.rs"), ("token_set", "src/token_set.rs"), ("write_response", "src/http_conn.rs write_response"), ("conn_loop", "src/http_conn.rs handle_http_conn"), ("resp_head", "src/response.rs write_http_response"), ("accept", "src/accept.rs accept_loop")]
     L.append("(* what the translator could not read, per item (0 everywhere = the translation is complete) *)")
     for key, prefix in items:
         L.append("Definition src_problems_%s : nat := %d." % (key, sum(1 for p in P if p.startswith(prefix))))
